@@ -38,7 +38,13 @@ void sb_light_program_destroy(sb_light_program_t* program)
 
 void sb_light_program_clear(sb_light_program_t* program)
 {
-    sb_buffer_clear(&program->buffer);
+    if (sb_buffer_is_view(&program->buffer)) {
+        /* a view cannot be resized, but it can be restricted to its first
+         * zero bytes; the memory itself belongs to the caller */
+        sb_buffer_init_view(&program->buffer, SB_BUFFER(program->buffer), 0);
+    } else {
+        sb_buffer_clear(&program->buffer);
+    }
 }
 
 sb_error_t sb_light_program_init_from_binary_file(sb_light_program_t* program, int fd)
